@@ -3639,6 +3639,38 @@ func ruleCachePendingShared(w *World, r *Report) {
 		r.exempt("CACHE-PENDING-SHARED", key, w.Pos(ns.Pos()), "premise fails: NewSystem no longer forces CachePending on; not decided by this rule")
 		return
 	}
+	// the premise has to hold for every way of installing a control: whoever replaces System.control at run time
+	// (SetControl, i.e. /api/sys/control) forces the flag as NewSystem does
+	for _, g := range w.Funcs {
+		if w.RelPkg(g) != "sys" || isTestFile(w, g) || g == ns {
+			continue
+		}
+		replaces := false
+		forces := false
+		allInstrs(g, func(in ssa.Instruction) {
+			if c := callOf(in); c != nil && isPkgFunc(calleeObj(c), "sync/atomic", "StorePointer") && len(c.Args) == 2 {
+				if n, f, _, ok := fieldOf(c.Args[0]); ok && typeKey(n) == "sys.System" && f == "control" {
+					replaces = true
+				}
+			}
+			if st, ok := in.(*ssa.Store); ok {
+				if n, f, _, ok := fieldOf(st.Addr); ok && typeKey(n) == "sys.SystemControl" && f == "CachePending" {
+					if b, isC := isConstBool(st.Val); isC && b {
+						forces = true
+					}
+				}
+			}
+		})
+		if !replaces {
+			continue
+		}
+		k2 := "premise fn=" + fname(g)
+		if forces {
+			r.ok("CACHE-PENDING-SHARED", k2, w.Pos(g.Pos()), "a control installed at run time has CachePending forced on, as in NewSystem")
+		} else {
+			r.violation("CACHE-PENDING-SHARED", k2, w.Pos(g.Pos()), "this function replaces the system's control without forcing CachePending on: with LocationTTL `never`, concurrent first requests then each load the location")
+		}
+	}
 	isLocs := func(v ssa.Value) bool {
 		n, f, _, ok := loadedField(v)
 		return ok && typeKey(n) == "sys.CachedLocations" && f == "locs"
